@@ -3,6 +3,7 @@ import math
 import numpy as np
 from vlib import drive, quiet, h2f, angdiff
 from harness.common import VOID, AXES, NAMES, mk_ub, rot_from_rotvec
+from props import c05
 from harness import pipeline as PL, solver as S
 
 SPEC = {
@@ -114,7 +115,7 @@ def correspondence(ctx):
                 vals = [float("nan") if t == "nan" else h2f(t) for t in a.split(" ")[1:]]
                 for k, v in zip(S.VA_KEYS, vals):
                     w = e[1][k]
-                    if math.isnan(v) != math.isnan(w) or (not math.isnan(v) and angdiff(v, w) > 1e-6):
+                    if math.isnan(v) != math.isnan(w) or (not math.isnan(v) and c05.differs(k, v, w)):      # (turning points of asin / acos: sine / cosine compared)
                         ok = False
         else:
             ok = a == e[0]
